@@ -230,7 +230,8 @@ namespace c16s
     spec.assumptions = {
       "route agreement only: the streamline diffusion term has no polynomial integrand, the integral oracle of the other C16 harnesses does not apply",
       "DomainAssembler with 0 worker threads: cells are assembled by one task in mesh order (threads: C17)",
-      "classic BurgersAssembler::assemble_vector (defect route without Frechet/SD terms by design) is not part of this comparison"};
+      "classic BurgersAssembler::assemble_vector (defect route without Frechet/SD terms by design) is not part of this comparison",
+      "set_sd_v_norm(Global::Vector) (MPI synchronised norm) is out of scope: the local-vector overload is used"};
     spec.max_fail_per_worker = 100000;
     return verif::run(spec, argc, argv, [&](verif::Ctx& c) {
       if constexpr(!three_d) { enumerate_sd_shape<Shape::Simplex<2>>(c); enumerate_sd_shape<Shape::Hypercube<2>>(c); }
